@@ -27,6 +27,7 @@ func (s *Store) SetCertificates(certs []tls.Certificate) {
 	cs := certstore{Certificates: certs}
 	cs.BuildNameToCertificate()
 	s.cs.Store(cs)
+	verifOnSetCerts(s, certs)
 	var names []string
 	for name := range cs.NameToCertificate {
 		names = append(names, name)
